@@ -30,6 +30,7 @@ import EqlModel.Props.C07
 import EqlModel.SpecExec
 import EqlModel.Eval
 import EqlModel.Lemmas.MachineConj
+import EqlModel.Gen.Tables
 
 namespace Eql
 variable {V : Type} [BEq V] [LawfulBEq V]
@@ -326,5 +327,13 @@ theorem c04_conj_any_state_partial (W : World V) (D : VarId → List V) (P : Mac
     (Machine.rowsM W D P false q st₁).1 = rows W D q := by
   rw [Machine.rowsM_conj_off W D P q c hq hc hf st₁, Machine.rowsM_conj_off W D P q c hq hc hf st₂]
   exact ⟨rfl, rfl⟩
+
+/-! ### Tie to the source (regenerated on every run, `Gen/Tables.lean`) -/
+
+/-- The transliterated life-cycle: both entry points reset in a `finally`, `An.evaluate` resets at its start when a
+    query it evaluates is marked as running, and the reset follows a variable's symbolic domain source. -/
+theorem c04_lifecycle_tied :
+    (Gen.anResetsInFinally && Gen.theResetsInFinally && Gen.anResetsAtStartWhenRunning && Gen.resetReachesDomainSources)
+      = true := by decide
 
 end Eql
